@@ -62,15 +62,16 @@ def setup(classes):
         if tname not in c13_gen.GENERIC:
             continue
         if cname not in made:
-            made[cname] = _make_generic(cname, slots, U, JSONSerializable)
+            made[cname] = _make_generic(cname, slots, U, JSONSerializable, c13_gen.SELFREG.get(tname))
         U.register_class(made[cname], tname)
     _SETUP["U"] = U
     return U
 
 
-def _make_generic(cname, slots, U, base):
+def _make_generic(cname, slots, U, base, selfreg=None):
     class V(base):
         _slots = slots
+        _selfreg = selfreg
 
         def __init__(self, id_, kids):
             self.id = id_
@@ -79,7 +80,14 @@ def _make_generic(cname, slots, U, base):
         @classmethod
         def from_json(cls, data, dic):
             kids = []
-            for kind, key, _extra in cls._slots:
+            obj = None
+            for n_slot, (kind, key, _extra) in enumerate(cls._slots):
+                if cls._selfreg is not None and n_slot == cls._selfreg:
+                    # the FlexibleTimeTreeModel shape: construct, register yourself, then load the rest
+                    if data["id"] in dic:
+                        raise U.JSONParseError("Object with ID `{}' already exists".format(data["id"]))
+                    obj = cls(data["id"], kids)
+                    dic[data["id"]] = obj
                 if kind == "one":
                     kids.append((key, [U.process_object(data[key], dic)]))
                 elif kind == "many":
@@ -98,6 +106,8 @@ def _make_generic(cname, slots, U, base):
                     kids.append((key, [U.process_object(d, dic) for d in v]))
                 else:
                     raise NotImplementedError(kind)
+            if obj is not None:
+                return obj      # kids is the very list the object holds: now complete
             return cls(data["id"], kids)
 
     V.__name__ = V.__qualname__ = cname
@@ -379,8 +389,10 @@ def oracle(ck, U, spec, real, tag, found):
         elif expected_reject(tag):
             sig = "duplicate-id-accepted" if tag[0].startswith("dup") else f"malformed-accepted:{tag[0]}"
             found.append((sig, spec, tag, []))
-    elif oc[0] == "err" and oc[1] == [("crash",)] and expected_reject(tag):
-        pass  # rejected, though not with a parse error: reported by the correspondence only
+    elif oc[0] == "err" and oc[1] and oc[1][-1][0] == "duplicate" and "expanded" in real \
+            and not dup_literal_ids(real["expanded"]):
+        # "already exists" for an id that the (cleaned, expanded) specification defines exactly once
+        found.append(("duplicate-reported-for-unique-id", spec, tag, [list(oc[1][-1])]))
 
 
 def run(ck: Check):
@@ -493,6 +505,15 @@ def small_family():
         out.append(([{"id": "a", "type": "Distribution", "distribution": "torch.distributions.Normal",
                       "x": {"id": "y", "type": "Parameter", "tensor": [1.0]},
                       "parameters": {"loc": 0.0, "scale": {"id": b, "type": "Parameter", "tensor": [1.0]}}}], tag))
+    # a class whose from_json registers the object itself (FlexibleTimeTreeModel shape): cycle, duplicates around it
+    out.append(([{"id": "t", "type": "VSelf", "pre": leaf("taxa"), "inner": {"id": "h", "type": "VOne", "x": "t"}}], None))
+    out.append(([{"id": "t", "type": "VSelf", "inner": "t"}], None))
+    out.append(([{"id": "t", "type": "VSelf", "inner": leaf("h"), "rest": ["t", "h", leaf("k")]}, {"id": "u", "type": "VOne", "x": "t"}], None))
+    out.append(([{"id": "t", "type": "VSelf", "inner": leaf("t")}], ("dup-small", True, {})))
+    out.append(([{"id": "t", "type": "VSelf", "pre": leaf("t"), "inner": leaf("h")}], ("dup-small", True, {})))
+    out.append(([{"id": "t", "type": "VSelf", "pre": "t", "inner": leaf("h")}], ("forward", True, {})))
+    out.append(([leaf("t"), {"id": "t", "type": "VSelf", "inner": leaf("h")}], ("dup-small", True, {})))
+    out.append(([{"id": "t", "type": "VSelf", "inner": {"id": "m", "type": "VOne", "x": leaf("t")}}], ("dup-small", True, {})))
     # references: shared, forward, dangling, to the enclosing object
     out.append(([leaf("a"), {"id": "p", "type": "VPair", "a": "a", "b": "a"}], None))
     out.append(([{"id": "p", "type": "VOne", "x": "a"}, leaf("a")], ("forward", True, {})))
@@ -540,6 +561,8 @@ def report(ck, U, ok, broken, found, note):
                 "duplicate-id-accepted": "two distinct object instances carry one id after an ACCEPTED load (an id was defined "
                                          "twice, or a reference did not resolve to the registered instance)",
                 "registered-under-other-id": "an object is registered under a key that is not its id",
+                "duplicate-reported-for-unique-id": "a specification that defines every id exactly once is rejected with "
+                                                    "`already exists`",
                 "holder-of-unregistered-id": "a reachable object carries an id the registry does not know",
                 "comment-has-effect": "underscore keys / ignored objects change what is loaded",
             }.get(sig, f"malformed specification accepted ({sig})")
@@ -572,6 +595,13 @@ def make_pred(U, sig):
             return oc[0] == "ok" and (any(b[0] == "two-objects-one-id" for b in sharing_violations(oc[1], oc[2]))
                                       or dup_literal_ids(spec))
         return pred
+    if sig == "duplicate-reported-for-unique-id":
+        def pred3(spec):
+            r = real_pipeline(U, spec)
+            oc = r["outcome"]
+            return (oc[0] == "err" and bool(oc[1]) and oc[1][-1][0] == "duplicate" and "expanded" in r
+                    and not dup_literal_ids(r["expanded"]))
+        return pred3
     if sig == "comment-has-effect":
         def pred2(spec):
             return not same_outcome(real_pipeline(U, spec), real_pipeline(U, strip_comments(copy.deepcopy(spec))))
